@@ -238,37 +238,98 @@ def isSumOf (t1 t2 r : Table) : Bool :=
 /-- exact share on the 10000 scale -/
 def shareFloor (w total : Int) : Int := (10000 * w) / total
 
-/-- the values `int(float64(w)/float64(total)*10000)` can take for `0 ≤ w ≤ total`, `0 < total < 2^53`:
-the exact share `⌊10000·w/total⌋`, except that when `10000·w/total` is an INTEGER (other than through
-`w = 0` or `w = total`, which float64 computes exactly) the two roundings may land just below it and the
-truncation then gives one less.  A non-integer quotient is at least `1/total` away from an integer, far
-more than the rounding error, so it is truncated exactly. -/
-def shareCands (w total : Int) : List Int :=
-  let f := shareFloor w total
-  if w = 0 ∨ w = total then [f] else if (10000 * w) % total = 0 then [f, f - 1] else [f]
+/-! ### IEEE binary64 rounding, over `Nat` (independent of Lean's `Float` and of the model)
 
-/-- the rule of one codon for given integer shares and cut-off weight (all three exact in float64 once they are integers) -/
+`rne p q` is the binary64 value nearest to the positive rational `p/q` (round to nearest, ties to even,
+53-bit significand), returned as a fraction.  Exponent range is not modelled: the shares and cut-off weights
+it is used for lie in [10⁻⁷, 10⁴], and a subnormal cut-off times 10000 truncates to 0 under any precision. -/
+
+/-- `p/q ≥ 2^k` -/
+def geTwoPow (p q : Nat) (k : Int) : Bool :=
+  if k ≥ 0 then decide (p ≥ q * 2 ^ k.toNat) else decide (p * 2 ^ (-k).toNat ≥ q)
+
+def rne (p q : Nat) : Nat × Nat :=
+  if p = 0 ∨ q = 0 then (0, 1) else
+  let k : Int := (Nat.log2 p : Int) - (Nat.log2 q : Int)          -- ⌊log₂(p/q)⌋ ∈ {k-1, k}
+  let fl : Int := if geTwoPow p q k then k else k - 1
+  let e : Int := fl - 52                                          -- (p/q) / 2^e ∈ [2^52, 2^53)
+  let n : Nat := if e ≥ 0 then p else p * 2 ^ (-e).toNat
+  let d : Nat := if e ≥ 0 then q * 2 ^ e.toNat else q
+  let m := n / d
+  let r := n % d
+  let m' := if 2 * r > d then m + 1 else if 2 * r = d then (if m % 2 = 0 then m else m + 1) else m
+  if e ≥ 0 then (m' * 2 ^ e.toNat, 1) else (m', 2 ^ (-e).toNat)
+
+/-- `int((float64(w) / float64(total)) * 10000)` for `0 ≤ w`, `0 < total` below 2^53: two roundings, then truncation -/
+def shareF64 (w total : Int) : Int :=
+  let a := rne w.toNat total.toNat
+  let b := rne (a.1 * 10000) a.2
+  ((b.1 / b.2 : Nat) : Int)
+
+/-- `int(10000 * c)` for the real number `q = c ≥ 0` (a binary64 value given exactly) -/
+def cutF64 (q : Rat) : Int :=
+  let b := rne (10000 * q.num.toNat) q.den
+  ((b.1 / b.2 : Nat) : Int)
+
+/-- the rule of one codon for given integer shares and cut-off weight (exact in float64 once they are integers) -/
 def ruleInt (cw f s : Int) : Int := if f < cw ∨ s < cw then 0 else (f + s) / 2
 
-/-- every weight the rule can produce from the candidate shares and candidate cut-off weights -/
-def ruleCands (fs ss cws : List Int) : List Int :=
-  fs.flatMap fun f => ss.flatMap fun s => cws.map fun cw => ruleInt cw f s
+/-- The weights the statement allows for one codon with weights `w1`/`tot1`, `w2`/`tot2` and cut-off `q`.
+There is no tolerance band; there are three named readings of "mean of the two shares scaled to 10000, or
+zero if either share is below the cut-off" that can differ by rounding, and each is accepted:
+  (a) float64 arithmetic as written in the statement's scale (`shareF64`, `cutF64`, truncated comparison);
+  (b) exact arithmetic truncated first (`shareFloor`, `⌊10000q⌋`) — the model the theorems are about;
+  (c) exact arithmetic compared BEFORE truncation (share `< q` as real numbers), mean of the truncated shares.
+Where the three agree — everywhere except within rounding of the cut-off or of an integer share — the verdict is exact. -/
+def compromiseReadings (q : Rat) (cwF cwE : Int) (w1 tot1 w2 tot2 : Int) (fa sa fb sb : Int) : List Int :=
+  -- w/tot < q as real numbers, cross-multiplied (tot > 0, q.den > 0)
+  let belowReal := decide (w1 * q.den < q.num * tot1) || decide (w2 * q.den < q.num * tot2)
+  [ruleInt cwF fa sa, ruleInt cwE fb sb, if belowReal then 0 else (fb + sb) / 2]
 
-/-- judge predicate for CompromiseCodonTable.  `cws` = the values `int(10000·c)` can take (one value unless
-`10000·c` is within float rounding of the next integer).  Outside those one-unit ambiguity bands the
-verdict is exact: a wrong comparison operator at the cut-off, a mean off by one, a zero that should not
-be one are failures. -/
-def isCompromiseOf (cws : List Int) (t1 t2 r : Table) : Bool :=
+/-- what the readings need per codon of the first table (in table order), independent of the cut-off so that a
+driver computes it once per pair: letter, triplet, (w1, tot1, w2, tot2), float64 shares, exact shares -/
+structure PrepCodon where
+  letter : Str
+  triplet : Str
+  w1 : Int
+  tot1 : Int
+  w2 : Int
+  tot2 : Int
+  fa : Int
+  sa : Int
+  fb : Int
+  sb : Int
+
+def prepPair (t1 t2 : Table) : List PrepCodon :=
   let e1 := entries t1
   let e2 := entries t2
-  keepsCode t1 r && (entries r).all fun e =>
-    (ruleCands (shareCands (weightAtE e1 e.1 e.2.1) (totalOfE e1 e.1)) (shareCands (weightAtE e2 e.1 e.2.1) (totalOfE e2 e.1)) cws).contains e.2.2
+  e1.map fun e =>
+    let tot1 := totalOfE e1 e.1
+    let w2 := weightAtE e2 e.1 e.2.1
+    let tot2 := totalOfE e2 e.1
+    { letter := e.1, triplet := e.2.1, w1 := e.2.2, tot1, w2, tot2,
+      fa := shareF64 e.2.2 tot1, sa := shareF64 w2 tot2, fb := shareFloor e.2.2 tot1, sb := shareFloor w2 tot2 }
 
-/-- "never rarer than the cut-off in either organism": codon `x` under letter `l` (with the same candidates) -/
-def notRare (cws : List Int) (t1 t2 : Table) (l x : Str) : Bool :=
-  let fs := shareCands (weightAt t1 l x) (totalOf t1 l)
-  let ss := shareCands (weightAt t2 l x) (totalOf t2 l)
-  fs.any fun f => ss.any fun s => cws.any fun cw => decide (cw ≤ f ∧ cw ≤ s)
+/-- judge predicate for CompromiseCodonTable with cut-off `q` (the exact value of the float64 cut-off, `0 ≤ q ≤ 1`);
+`P = prepPair t1 t2`.  `keepsCode` makes the result list the first table's codons in the same order. -/
+def isCompromiseOfP (q : Rat) (P : List PrepCodon) (t1 r : Table) : Bool :=
+  let cwF := cutF64 q
+  let cwE := (10000 * q).floor
+  let er := entries r
+  keepsCode t1 r && er.length == P.length && (er.zip P).all fun ep =>
+    let e := ep.1
+    let p := ep.2
+    e.1 == p.letter && e.2.1 == p.triplet &&
+      (compromiseReadings q cwF cwE p.w1 p.tot1 p.w2 p.tot2 p.fa p.sa p.fb p.sb).contains e.2.2
+
+def isCompromiseOf (q : Rat) (t1 t2 r : Table) : Bool := isCompromiseOfP q (prepPair t1 t2) t1 r
+
+/-- "never rarer than the cut-off in either organism", on the 10000 scale with the statement's ±1: codon `x`
+under letter `l` has `10000·share + 1 ≥ 10000·q` in both tables -/
+def notRare (q : Rat) (t1 t2 : Table) (l x : Str) : Bool :=
+  -- 10000·w/tot + 1 ≥ 10000·q, cross-multiplied (tot > 0, q.den > 0)
+  let ok := fun (t : Table) => decide ((10000 * weightAt t l x + totalOf t l) * q.den ≥ 10000 * q.num * totalOf t l)
+  ok t1 && ok t2
 
 /-- codon.Optimize can encode residue `l` with table `t`: some codon listed under `l` has more than a 10 % share
 (`float64(w)/float64(Σ) > 0.10`, i.e. `10·w > Σ`) -/
